@@ -646,6 +646,11 @@ def expected_routing(inp, ptx):
     return exp, hap_case, target_on, primary
 
 
+def norm_key(k):
+    """haplotype keys are matched case-insensitively (the spelling is that of the first occurrence, tag OR input name)"""
+    return k if (k is None or k in SPECIAL or k == "Primary") else k.lower()
+
+
 def oracle_routing(inp, ptx, res, bpt_s):
     """C09: the core of every piece sits in the assembly its tags prescribe; special tags never in a curated assembly"""
     errs = []
@@ -662,6 +667,14 @@ def oracle_routing(inp, ptx, res, bpt_s):
                     sn = im[r["name"]][0]
                     p1 = scafpos(im, r["name"], r["start"]); p2 = scafpos(im, r["name"], r["end"])
                     spans.append((sn, min(p1, p2), max(p1, p2), a["key"], a["curated"], s["name"]))
+    # one assembly per haplotype: the property matches haplotype names case-insensitively, so two output assemblies whose keys
+    # differ only in case split one haplotype over two assemblies (and the CLI writes both to the same file)
+    keys = [a["key"] for a in res["ok"]["assemblies"] if a["key"] is not None]
+    lows = [k.lower() for k in keys]
+    for k in keys:
+        if lows.count(k.lower()) > 1:
+            errs.append(f"two output assemblies for one haplotype (keys differ only in case): {sorted(x for x in keys if x.lower() == k.lower())}")
+            break
     covered = {}
     for f, key, psname in exp:
         if primary is not None and key == primary:
@@ -671,7 +684,7 @@ def oracle_routing(inp, ptx, res, bpt_s):
         for (sn, lo, hi, k, curated, oname) in spans:
             if sn != f["name"] or max(lo, a_) > min(hi, b_):
                 continue
-            if k != key:
+            if norm_key(k) != norm_key(key):
                 errs.append(f"piece {f['name']}:{f['start']}-{f['end']} tags={f['tags']} of {psname}: core written to assembly {k!r} (scaffold {oname}), expected {key!r}")
             elif key in SPECIAL and curated:
                 errs.append(f"{key} piece written to a curated assembly")
@@ -695,7 +708,7 @@ def oracle_routing(inp, ptx, res, bpt_s):
                             want = "Primary"
                     got = [(k) for (sn, l2, h2, k, cur, on) in spans if sn == s["name"] and l2 <= hi and h2 >= lo]
                     for k in got:
-                        if k != want:
+                        if norm_key(k) != norm_key(want):
                             errs.append(f"contig {r['name']} absent from the map written to assembly {k!r}, expected {want!r}")
             p += ln
     return errs
@@ -983,6 +996,50 @@ def make_case(rng, kind, **kw):
             n += 1
             ptx.append(conv.jscaffold(f"Scaffold_{n}", [conv.jfrag(0, s_["name"], 1, math.floor(T * beta), 1, ["Painted"] if kind == "nulltightp" else [])]))
         return {"kind": "nullp" if kind == "nulltightp" else "null", "input": inp, "ptx": ptx, "bpt": bpt}
+    if kind == "hapmix":
+        # haplotype-named input scaffolds (HAP2_SCAFFOLD_7 …) and haplotype TAGS spelt in another case (Hap2, hap2 …); only some
+        # of the Pretext scaffolds carry the tag, so untagged scaffolds of a haplotype may come BEFORE its first tagged one
+        inp = rand_input(rng, revp=revp, hap_names=True, nscaf=5, maxlen=(40 if rng.random() < 0.3 else 3000))
+        prefs = rng.choice([["HAP1", "HAP2"], ["HAP1", "HAP2"], ["Hap1", "Hap2"], ["hapA", "hapB"], ["MAT", "PAT"]])
+        for j, s_ in enumerate(inp):
+            pref = rng.choice(prefs)
+            s_["name"] = pref + f"_SCAFFOLD_{j+1}"
+            # ToL inputs name a contig after its scaffold (FASTA record / `<scaffold>:<start>-<end>` in a TPF), and the code reads the
+            # haplotype of a LEFT-OVER scaffold from its first contig's name: contigs carry the scaffold's prefix here too
+            for r in s_["rows"]:
+                if r["t"] == "F":
+                    r["name"] = f"{pref}_CTG_{r['oid'] + 1}"
+        ptx, _ = pretext_script(rng, inp, bpt, paint=0.7, minus=0.3)
+        for ps in ptx:
+            frs = [r for r in ps["rows"] if r["t"] == "F"]
+            if not frs:
+                continue
+            painted = "Painted" in frs[0]["tags"]
+            if rng.random() < (0.5 if painted else 0.15):
+                pref = frs[0]["name"].split("_")[0]
+                frs[0]["tags"] = list(frs[0]["tags"]) + [rng.choice([pref, pref.capitalize(), pref.lower(), pref.upper()])]
+        return {"kind": "tagged2", "input": inp, "ptx": ptx, "bpt": bpt}
+    if kind == "unlocs":
+        # painted chromosomes with SEVERAL Unloc pieces of different sizes, often as the LAST Pretext scaffold and often with
+        # nothing left over (1 bp per texel: every scaffold is covered completely)
+        if rng.random() < 0.75:
+            bpt = rng.choice(["1", "1", "1", "2"])
+        inp = rand_input(rng, revp=revp, nscaf=3, maxrows=7, maxlen=(60 if rng.random() < 0.4 else 3000), minlen=3, double_gaps=0.0)
+        ptx, _ = pretext_script(rng, inp, bpt, paint=1.0, cutp=0.85, drop_subtexel=0.0, max_group=6, force_floor=(rng.random() < 0.5))
+        rich = []
+        for ps in ptx:
+            frs = [r for r in ps["rows"] if r["t"] == "F"]
+            k = 0
+            for n, f in enumerate(frs):
+                if n > 0 and rng.random() < 0.75:
+                    f["tags"] = list(f["tags"]) + ["Unloc"]; k += 1
+            rich.append(k)
+        if ptx and rng.random() < 0.8:
+            i = max(range(len(ptx)), key=lambda i: rich[i])
+            ptx.append(ptx.pop(i))
+            for n, ps in enumerate(ptx):
+                ps["name"] = f"Scaffold_{n+1}"
+        return {"kind": "tagged", "input": inp, "ptx": ptx, "bpt": bpt}
     small = kw.get("small", rng.random() < 0.3)
     inp = rand_input(rng, revp=revp, hap_names=(kind == "hapnames"), maxlen=(40 if small else 3000),
                      zero_strand=kw.get("zero_strand", 0.0), nscaf=kw.get("nscaf", 4),
